@@ -15,12 +15,32 @@ def db_story(game, rng):
     return out
 
 
-def walk(ck, name, cfg, episodes, coq_in):
+def login_story(game):
+    """every host logs in to every other host over SSH (default administrator account): sessions that then sit idle until they expire"""
+    hosts = [n for n in game.simulation.network.nodes.values() if n.config.type in world.HOSTS and "terminal" in n.software_manager.software]
+    out = []
+    for a in hosts[:3]:
+        for b in hosts[:3]:
+            if a is not b and b.network_interface:
+                out.append(["network", "node", a.config.hostname, "service", "terminal", "node_session_remote_login", "admin", "admin", str(b.network_interface[1].ip_address)])
+    return out
+
+
+def removal_story(game, rng):
+    """every application of one host removed within one tick, one after the other (no installation in between)"""
+    hosts = [n for n in game.simulation.network.nodes.values() if n.config.type in world.HOSTS and len(n.applications) >= 2]
+    if not hosts:
+        return []
+    n = rng.choice(hosts)
+    return [["network", "node", n.config.hostname, "software_manager", "application", "uninstall", a.name] for a in list(n.applications.values())]
+
+
+def walk(ck, name, cfg, episodes, coq_in, long_idle=False):
     rng = ck.rng
     scheduled = isinstance(cfg, str)          # a folder with schedule.yaml: the environment cycles through its episodes
     if not scheduled:
         cfg = copy.deepcopy(cfg)
-        mx = cfg["game"]["max_episode_length"] = rng.choice([5, 8, 13, 21])
+        mx = cfg["game"]["max_episode_length"] = rng.choice([5, 8, 13, 21]) if not long_idle else 36
         # scripted agents that start at once / early (the shipped ones start after most of these short episodes are over)
         if rng.random() < 0.5:
             for a in cfg.get("agents", []):
@@ -32,6 +52,18 @@ def walk(ck, name, cfg, episodes, coq_in):
                         st["variance"] = rng.choice([0, 1])
                     if "start_variance" in st:
                         st["start_variance"] = rng.choice([0, 1])
+    removal_actions = []
+    if not scheduled and not long_idle:
+        # the defender may remove every application of one host, one per step, with no installation in between
+        hosts = [n for n in cfg["simulation"]["network"]["nodes"] if len(n.get("applications") or []) >= 2]
+        learner = next((a for a in cfg["agents"] if a.get("type") in ("proxy-agent", "ProxyAgent")), None)
+        if hosts and learner is not None:
+            hn = rng.choice(hosts)
+            amap = learner["action_space"]["action_map"]
+            for ap in hn["applications"]:
+                k = max(int(x) for x in amap) + 1
+                amap[k] = {"action": "node-application-remove", "options": {"node_name": hn["hostname"], "application_name": ap["type"]}}
+                removal_actions.append(k)
     ctx = {"scenario": name, "ops": []}
     try:
         if scheduled:
@@ -61,11 +93,17 @@ def walk(ck, name, cfg, episodes, coq_in):
     for ep in range(episodes):
         # how this episode ends: at the limit, abandoned mid-way, or stepped past the limit
         kind = rng.choice(["to-limit", "abandoned", "abandoned", "past-limit"]) if not scheduled else "abandoned"
+        if long_idle:
+            kind = "to-limit"
         length = mx if kind == "to-limit" else rng.randint(1, min(mx - 1, 4 if scheduled else mx)) if kind == "abandoned" else mx + rng.randint(1, 3)
         for t in range(length):
             game = env.game
             inv = world.inventory(game.simulation)
             reqs = obswalk.extra_requests(game, rng, inv) + (db_story(game, rng) if t == 1 else [])
+            if long_idle:
+                reqs = login_story(game) if t == 1 else []
+            elif t == 2 and rng.random() < 0.35:
+                reqs = reqs + removal_story(game, rng)
             orig = game.apply_agent_actions
 
             def patched(_o=orig, _reqs=reqs, _g=game):
@@ -77,7 +115,9 @@ def walk(ck, name, cfg, episodes, coq_in):
                         pass
             if reqs:
                 game.apply_agent_actions = patched
-            a = rng.randrange(n_actions)
+            a = rng.randrange(n_actions) if not long_idle else 0
+            if removal_actions and ep % 2 == 1 and 1 <= t <= len(removal_actions):
+                a = removal_actions[t - 1]
             ctx["ops"].append(a)
             try:
                 res = env.step(a)
@@ -158,6 +198,9 @@ def run(ck):
     for name, cfg in scen:
         for rep in range(4 if name.startswith("pkg/data") else 1):
             walk(ck, name, cfg, ck.n(6, 10), coq_in)
+    # sessions opened early and left idle until the simulator expires them (episodes longer than the session time-out)
+    for name, cfg in scen[:ck.n(2, 6)]:
+        walk(ck, name + " + idle remote sessions", cfg, 2, coq_in, long_idle=True)
     # episode-scheduled scenarios: through the whole schedule and well past its end (it loops)
     import glob, os, yaml
     for root in sorted(glob.glob(world.PKG + "/*/")) + sorted(glob.glob(world.ASSETS + "/*/")):
